@@ -72,11 +72,11 @@ def spaces():
     st["corpus"] = corpus
     wbase = st["d1"] + corpus + docs.hash_slice(core, 8000, "C01-wrapc") + docs.hash_slice(d2, 4000, "C01-wrap")
     st["wrap"] = list(dict.fromkeys(wrap(d, k) for k in ("bq", "ul", "ol") for d in wbase))
-    st["edges"] = list(dict.fromkeys(docs.link_edges() + docs.leaf_edges() + docs.families() + docs.inline_emph(6) + docs.inline_links()))
+    st["edges"] = list(dict.fromkeys(docs.link_edges() + docs.leaf_edges() + docs.families() + docs.inline_emph(6) + docs.inline_links() + docs.container_pairs() + docs.corpus_marker_variants() + docs.multi_pairs()))
     return st
 
 
-QUICK = {"d1": 400, "d2": 14000, "d2-nonl": 1500, "d3": 9000, "corpus": 1500, "wrap": 7000, "edges": 4000}
+QUICK = {"d1": 400, "d2": 14000, "d2-nonl": 1500, "d3": 9000, "corpus": 1500, "wrap": 7000, "edges": 6000}
 
 # ------------------------------------------------------------------------------------------------ sweep worker
 _REC = {}
